@@ -131,6 +131,10 @@ def gen_solve_case(rng, desc=None, base=None):
             keep[inds] = False
             t0 = np.asarray(t0, dtype=float) + keep * rng.choice([-1.0, 1.0], n) * 10 ** rng.uniform(-5, -3)
             sk = "held_joints_off"
+    if gk != "beyond" and path != "IKFree" and t0 is not None and rng.random() < 0.12:
+        # the start already has the goal's orientation and two of its three coordinates: the whole remaining error lies along one world axis
+        gk = "axis_offset:%d:%r" % (int(rng.integers(3)), float(rng.choice([-1.0, 1.0]) * 10 ** rng.uniform(-3, -0.3)))
+        gth = np.asarray(t0, dtype=float).copy()
     return {"arm": desc, "base": base, "prefix": prefix, "pos_tol": pt, "rot_tol": rt, "goal_theta": gth.tolist(), "goal_kind": gk,
             "theta0": None if t0 is None else np.asarray(t0).tolist(), "start_kind": sk, "path": path,
             "check": bool(rng.random() < 0.6), "inds": inds, "rseed": int(rng.integers(1 << 30))}
@@ -189,6 +193,11 @@ def run_solve(session, case, si, ctx, bm, arm, model, reach):
     if case["goal_kind"] == "held":
         goal = np.array(arm.getEEPos().gTM(), dtype=float)
         ctx.cls("goal:held_pose")
+    if case["goal_kind"].startswith("axis_offset"):
+        _, k_ax, d_ax = case["goal_kind"].split(":")
+        goal = goal.copy()
+        goal[int(k_ax), 3] += float(d_ax)
+        ctx.cls("goal:start_pose_shifted_along_one_axis")
     case = dict(case)
     case["_session"] = {"arm": session["arm"], "base": session["base"], "prefix": session["prefix"], "solves": session["solves"], "failing_solve": si}
     beyond = case["goal_kind"] == "beyond"
@@ -223,7 +232,7 @@ def run_solve(session, case, si, ctx, bm, arm, model, reach):
         return
     th = np.asarray(th, dtype=float).reshape(-1)
     suc = bool(suc)
-    ctx.cls("%s:%s:%s" % (path, case["goal_kind"], "success" if suc else "fail"))
+    ctx.cls("%s:%s:%s" % (path, case["goal_kind"].split(":")[0], "success" if suc else "fail"))
     T = model.pose(th)
     band = model.in_band(th)
 
@@ -280,7 +289,7 @@ def run_solve(session, case, si, ctx, bm, arm, model, reach):
         coherent("failure.coherent", "state_incoherent/failure/" + key_path + (":restarts" if case["check"] else ":norestarts"))
 
     # local convergence
-    if (not beyond and case["goal_kind"] != "held" and case["start_kind"] == "near" and path != "IKFree" and t0 is not None
+    if (not beyond and case["goal_kind"] != "held" and not case["goal_kind"].startswith("axis_offset") and case["start_kind"] == "near" and path != "IKFree" and t0 is not None
             and np.all(gth >= model.lo + 0.15) and np.all(gth <= model.hi - 0.15)
             and float(np.max(np.abs(t0 - gth))) <= 0.02 + 1e-12):
         sv = np.linalg.svd(model.jac_space(gth), compute_uv=False)
